@@ -595,6 +595,8 @@ func (r *Runner) Step(st []any, noLS bool) (res string, ack bool) {
 		return r.gateStart(argStr(st, 1, "PASSIVE")), false
 	case "CkStep": // let the parked checkpoint run to its next hook (or to completion)
 		return r.gateStep(), false
+	case "CkCancel": // the context the parked checkpoint was called with is cancelled (its request timed out)
+		return r.gateCancel(), false
 	case "LsClose":
 		if !r.lsUp {
 			return "skip", false
